@@ -112,15 +112,21 @@ fn gen(rng: &mut Rng) -> Case {
   };
   let globs_pool = ["*.txt", "!*.txt", "a*", "!a*", "c/*", "!c/*", "*b*", "?", "[ab]", "![ab]*", "*", "!*", "*/*", "a", "!b", "*.md", "c/a", ".hid", "!.*", "*/.a"];
   let specs_pool = ["path", "path:ascending", "path:descending", "size", "size:ascending", "size:descending"];
-  let ng = *rng.pick(&[0u64, 0, 1, 2, 3]);
+  let ng = *rng.pick(&[0u64, 0, 1, 2, 3, 3, 4, 5]);
   let ns = *rng.pick(&[0u64, 0, 1, 2, 3]);
+  let mut globs: Vec<String> = (0..ng).map(|_| rng.pick(&globs_pool).to_string()).collect();
+  // the last matching glob decides, also when it repeats an earlier one word for word: A, B, A
+  if globs.len() >= 2 && rng.chance(1, 3) {
+    let again = globs[rng.below(globs.len() as u64 - 1) as usize].clone();
+    globs.push(again);
+  }
   Case {
     root,
     hidden: rng.chance(1, 2),
     ignore: rng.chance(1, 3),
     junk: rng.chance(1, 2),
     follow: rng.chance(1, 2),
-    globs: (0..ng).map(|_| rng.pick(&globs_pool).to_string()).collect(),
+    globs,
     specs: (0..ns).map(|_| rng.pick(&specs_pool).to_string()).collect(),
     shuffle_seed: rng.next(),
     specials: rng.chance(1, 4),
